@@ -1,6 +1,8 @@
-(* C09 requests: 900 run a history in the store model, 901 property oracle on the implementation's observations. *)
+(* C09 requests: 900 run a history in the store model, 901 property oracle on the implementation's observations,
+   902 run the same history with the writers executed as HEAP PROGRAMS (model/HeapProg.v: exec of prog_of kind),
+   903 the ownership analysis and the assigned-before-read analysis on the eight writer programs and on the variants. *)
 From Coq Require Import List ZArith Bool.
-From PV Require Import lib.Sx lib.Result model.Store model.Iso spec.SpecIso extract.OrCommon extract.IsoWire.
+From PV Require Import lib.Sx lib.Result model.Store model.Iso model.HeapProg spec.SpecIso extract.OrCommon extract.IsoWire.
 Import ListNotations.
 Open Scope Z_scope.
 
@@ -10,9 +12,34 @@ Definition req_ok_c09 (arg : sx) : sx :=
   | None => bad
   end.
 
+Definition req_runP (arg : sx) : sx :=
+  match arg with
+  | SL [c; ops] =>
+      match sx_cfg c, sx_listof sx_op ops with
+      | Some c, Some ops =>
+          of_list (fun r => SL [of_mobs (fst r); of_list of_tree (snd r)]) (runP c world0 ops)
+      | _, _ => bad
+      end
+  | _ => bad
+  end.
+
+Definition accepted (p : cmd) : bool := match check p [] with Some _ => true | None => false end.
+
+Definition req_check (arg : sx) : sx :=
+  SL [of_list of_bool (map (fun k => accepted (prog_of k)) [1; 2; 3; 4; 5; 6; 7; 8]);
+      of_list of_bool (map accepted [prog_dfxp_nocopy; prog_dfxp_shallow; prog_sami_nocopy; prog_sami_shallow;
+                                     prog_legacy_merge_first; prog_single_nocopy]);
+      of_list of_bool (map (fun k => match du (prog_of k) inst_regs with Some _ => true | None => false end)
+                           [1; 2; 3; 4; 5; 6; 7; 8]);
+      of_list of_bool (map (fun p => match du p inst_regs with Some _ => true | None => false end)
+                           [prog_with false W_DFXP; prog_with false W_SAMI; prog_with false W_LEGACY;
+                            prog_with false W_SINGLE; prog_vtt_no_global])].
+
 Definition dispatch (code : Z) (arg : sx) : option sx :=
   match code with
   | 900 => Some (req_run arg)
   | 901 => Some (req_ok_c09 arg)
+  | 902 => Some (req_runP arg)
+  | 903 => Some (req_check arg)
   | _ => None
   end.
